@@ -88,7 +88,8 @@ def _tok(t: Any) -> tuple:
     if isinstance(t, Term):
         a = t.args[0] if t.args else ""
         if isinstance(a, BitVec):
-            a = bits_str(a, 24)
+            from .absint import sym_name
+            a = hex(a.value()) if a.is_const() else "<" + sym_name(a) + ">"
         elif isinstance(a, tuple) and a and a[0] == "external":
             a = a[1].split(".")[-1]
         return (t.ctor, str(a))
